@@ -5,9 +5,9 @@ import pgtcheck as pc
 
 def run(prop, path):
     r = json.load(open(path))
-    print(json.dumps({k: r[k] for k in r if k not in ('log_tail',)}, indent=1)[:4000])
+    print(json.dumps({k: r[k] for k in r if k not in ('log_tail', 'case', 'original_case')}, indent=1)[:4000])
     b = r.get('batch') or r.get('variant')
-    if not b or not os.path.exists(f'{b}/case.json'):
+    if not r.get('case') and (not b or not os.path.exists(f'{b}/case.json')):
         print('the recorded batch directory is gone; re-run the check with VERIF_SEED=%s to regenerate it' % r.get('seed'))
         return 1
     pc.ensure_tools()
@@ -17,7 +17,12 @@ def run(prop, path):
         print(err)
         return 1
     d = f'{pc.WORK}/replay'
-    case = {'case': json.load(open(f'{b}/case.json')), 'meta': json.load(open(f'{b}/meta.json')) if os.path.exists(f'{b}/meta.json') else {'Roots': [], 'Injected': [], 'Hooks': [], 'CustomTys': []}}
+    if r.get('case'):
+        case = r['case']        # self-contained replay (possibly shrunk)
+        if not case.get('meta'):
+            case['meta'] = {'Roots': [], 'Injected': [], 'Hooks': [], 'CustomTys': []}
+    else:
+        case = {'case': json.load(open(f'{b}/case.json')), 'meta': json.load(open(f'{b}/meta.json')) if os.path.exists(f'{b}/meta.json') else {'Roots': [], 'Injected': [], 'Hooks': [], 'CustomTys': []}}
     json.dump(case, open(f'{pc.WORK}/replay_case.json', 'w'))
     rc, out, e = pc.sh([pc.BIN, 'batch', '-work', d, '-plugin', pc.plugin_path(rh), '-case', f'{pc.WORK}/replay_case.json', '-seed', str(r.get('seed', 1))], cwd=pc.HARNESS)
     st = json.load(open(f'{d}/status.json'))
@@ -31,4 +36,16 @@ def run(prop, path):
                 print('implementation:', json.dumps(i)[:3000])
                 p = subprocess.run([pc.MODEL, f'{d}/case.json'], input=json.dumps(o) + '\n' + json.dumps({'op': 'check', 'orig': o, 'impl': i}) + '\n', text=True, capture_output=True)
                 print('model / property predicate:', p.stdout[:3000])
+    # the property evaluation of the check, on this case alone (fresh operations drawn from the recorded seed)
+    try:
+        import shrink
+        vs, _ = shrink.evaluate_case(prop, case, r.get('tier', 'quick'), r.get('seed', 1), 'replay')
+        import shutil
+        shutil.rmtree(f'{pc.WORK}/shrink', ignore_errors=True)
+        print(f'property evaluation on the replayed case: {len(vs)} violation(s)')
+        for v in vs[:5]:
+            print('  ', json.dumps({k: v[k] for k in v if k not in ('case',)})[:600])
+        return 1 if vs else 0
+    except Exception as e:
+        print('evaluation on the replayed case failed:', repr(e)[:300])
     return 0
